@@ -124,13 +124,14 @@ Qed.
 (* ------------------------------------------------------------------ *)
 (* ws_len versus the whitespace reconstruct really emits *)
 
-(* the safety net of `reconstruct` fires in front of this token *)
+(* the safety net of `reconstruct` fires in front of this token (Model/Reconstruct.emit_ws) *)
 Definition net_fires (mb : bool) (p : ftoken) : bool :=
   let (tok, f) := p in
   if f_ignored f then mb && negb (has_break (t_ws tok)) && negb (is_eof (t_ty tok))
   else mb && (f_nl f =? 0) && negb (is_eof (t_ty tok)).
 
-(* no safety-net newline anywhere in l (mb = the token before l was a `//` comment) *)
+(* no safety-net newline anywhere in l (mb = the token before l was a `//` comment).  Since
+   commit 65fa795 no theorem below needs it any more; kept for reference. *)
 Fixpoint net_free (mb : bool) (l : list ftoken) : bool :=
   match l with
   | [] => true
@@ -140,47 +141,77 @@ Fixpoint net_free (mb : bool) (l : list ftoken) : bool :=
 Lemma net_fires_false_mb p : net_fires false p = false.
 Proof. destruct p as [tok f]. unfold net_fires. destruct (f_ignored f); reflexivity. Qed.
 
+(* the condition inlined in Model/Reconstruct.emit_ws is `must_break && lacks_line_break` *)
+Lemma net_fires_lacks mb p : net_fires mb p = mb && lacks_line_break p.
+Proof.
+  destruct p as [tok f]. unfold net_fires, lacks_line_break.
+  destruct (is_eof (t_ty tok)), (f_ignored f), mb; cbn [andb negb]; try reflexivity;
+    rewrite ?andb_true_r, ?andb_false_r; reflexivity.
+Qed.
+
 Lemma ws_len_unfold_fmt rs tok f :
   f_ignored f = false ->
   ws_len rs (tok, f) =
   f_sp f + f_cont f * blen (rs_cont rs) + f_ind f * blen (rs_indent rs) + f_nl f * nl_len rs.
 Proof. intros H. unfold ws_len, nonbreaking_ws_len. rewrite H. reflexivity. Qed.
 
-Lemma emit_ws_len_no_net rs mb p :
-  net_fires mb p = false -> blen (emit_ws rs mb p) = ws_len rs p.
+(* the whitespace proper: what ws_len measures *)
+Definition ws_part (rs : rsettings) (p : ftoken) : bytes :=
+  let (tok, f) := p in
+  if f_ignored f then t_ws tok
+  else nrepeat (f_nl f) (rs_newline rs) ++ nrepeat (f_ind f) (rs_indent rs)
+       ++ nrepeat (f_cont f) (rs_cont rs) ++ nrepeat (f_sp f) [32].
+(* the added line break: what net_len measures *)
+Definition net_part (rs : rsettings) (mb : bool) (p : ftoken) : bytes :=
+  if mb && lacks_line_break p then rs_newline rs else [].
+
+(* reconstruct as refactored by 65fa795 (push the newline, then the whitespace) is the
+   emit_ws of Model/Reconstruct.v *)
+Lemma emit_ws_split rs mb p : emit_ws rs mb p = net_part rs mb p ++ ws_part rs p.
 Proof.
-  destruct p as [tok f]. unfold net_fires, emit_ws. destruct (f_ignored f) eqn:Hi.
-  - intros ->. unfold ws_len. rewrite Hi. reflexivity.
-  - intros ->. rewrite ws_len_unfold_fmt by exact Hi.
-    rewrite !blen_app, !blen_nrepeat. unfold nl_len.
+  unfold net_part. rewrite <- net_fires_lacks.
+  destruct p as [tok f]. unfold emit_ws, net_fires, ws_part. destruct (f_ignored f); [reflexivity|].
+  destruct (mb && (f_nl f =? 0) && negb (is_eof (t_ty tok))) eqn:E; [|reflexivity].
+  apply andb_true_iff in E. destruct E as [E _]. apply andb_true_iff in E. destruct E as [_ E].
+  apply N.eqb_eq in E. rewrite E.
+  change (nrepeat 1 (rs_newline rs)) with (rs_newline rs ++ []).
+  change (nrepeat 0 (rs_newline rs)) with (@nil N).
+  rewrite app_nil_r. reflexivity.
+Qed.
+
+Lemma ws_part_len rs p : blen (ws_part rs p) = ws_len rs p.
+Proof.
+  destruct p as [tok f]. unfold ws_part. destruct (f_ignored f) eqn:Hi.
+  - unfold ws_len. rewrite Hi. reflexivity.
+  - rewrite ws_len_unfold_fmt by exact Hi. rewrite !blen_app, !blen_nrepeat. unfold nl_len.
     change (blen [32]) with 1. lia.
 Qed.
 
+Lemma net_part_len rs mb p : blen (net_part rs mb p) = net_len rs mb p.
+Proof. unfold net_part, net_len, nl_len. destruct (mb && lacks_line_break p); reflexivity. Qed.
+
+(* unconditional: the emitted whitespace is the (possibly empty) added line break plus ws_len *)
+Lemma emit_ws_len rs mb p : blen (emit_ws rs mb p) = net_len rs mb p + ws_len rs p.
+Proof. rewrite emit_ws_split, blen_app, net_part_len, ws_part_len. reflexivity. Qed.
+
+Lemma emit_ws_len_no_net rs mb p :
+  net_fires mb p = false -> blen (emit_ws rs mb p) = ws_len rs p.
+Proof. intros H. rewrite emit_ws_len. unfold net_len. rewrite <- net_fires_lacks, H. lia. Qed.
+
 Lemma emit_ws_len_net rs mb p :
   net_fires mb p = true -> blen (emit_ws rs mb p) = ws_len rs p + nl_len rs.
-Proof.
-  destruct p as [tok f]. unfold net_fires, emit_ws. destruct (f_ignored f) eqn:Hi.
-  - intros ->. unfold ws_len. rewrite Hi. rewrite blen_app. unfold nl_len. lia.
-  - intros H. rewrite H. rewrite ws_len_unfold_fmt by exact Hi.
-    apply andb_true_iff in H. destruct H as [H _]. apply andb_true_iff in H. destruct H as [_ H].
-    apply N.eqb_eq in H. rewrite H.
-    rewrite !blen_app, !blen_nrepeat. unfold nl_len. change (blen [32]) with 1. lia.
-Qed.
+Proof. intros H. rewrite emit_ws_len. unfold net_len. rewrite <- net_fires_lacks, H. lia. Qed.
 
-(* ws_len never over-estimates: the safety net only adds bytes *)
 Lemma ws_len_le_emit rs mb p : ws_len rs p <= blen (emit_ws rs mb p).
-Proof.
-  destruct (net_fires mb p) eqn:E.
-  - rewrite emit_ws_len_net by exact E. lia.
-  - rewrite emit_ws_len_no_net by exact E. lia.
-Qed.
+Proof. rewrite emit_ws_len. lia. Qed.
 
 (* ------------------------------------------------------------------ *)
 (* offset_for_token *)
 
-Lemma offset_for_token_cons rs p r i :
-  offset_for_token rs (p :: r) i =
-  ws_len rs p + match i with O => 0 | S j => blen (t_content (fst p)) + offset_for_token rs r j end.
+Lemma offset_from_cons rs mb p r i :
+  offset_from rs mb (p :: r) i =
+  net_len rs mb p + ws_len rs p +
+  match i with O => 0 | S j => blen (t_content (fst p)) + offset_from rs (is_sl_comment (t_ty (fst p))) r j end.
 Proof. reflexivity. Qed.
 
 Lemma mb_after_cons mb q l : mb_after mb (q :: l) = mb_after (is_sl_comment (t_ty (fst q))) l.
@@ -191,36 +222,32 @@ Qed.
 (* the general form, for any initial must_break *)
 Lemma offset_for_token_correct_gen rs toks : forall mb i p,
   nth_error toks i = Some p ->
-  net_free mb (firstn (S i) toks) = true ->
   exists pre post,
     recon rs mb toks = pre ++ t_content (fst p) ++ post /\
-    blen pre = offset_for_token rs toks i /\
+    blen pre = offset_from rs mb toks i /\
     pre = recon rs mb (firstn i toks) ++ emit_ws rs (mb_after mb (firstn i toks)) p /\
     post = recon rs (is_sl_comment (t_ty (fst p))) (skipn (S i) toks).
 Proof.
-  induction toks as [|q r IH]; intros mb i p Hn Hf; [destruct i; discriminate|].
-  cbn [firstn net_free] in Hf. apply andb_true_iff in Hf. destruct Hf as [Hq Hr].
-  apply negb_true_iff in Hq.
+  induction toks as [|q r IH]; intros mb i p Hn; [destruct i; discriminate|].
   destruct i as [|j].
   - cbn [nth_error] in Hn. injection Hn as <-.
     exists (emit_ws rs mb q), (recon rs (is_sl_comment (t_ty (fst q))) r).
-    repeat split. cbn [offset_for_token]. rewrite emit_ws_len_no_net by exact Hq. lia.
+    repeat split. rewrite offset_from_cons, emit_ws_len. lia.
   - cbn [nth_error] in Hn.
-    destruct (IH (is_sl_comment (t_ty (fst q))) j p Hn Hr) as (pre & post & Hrec & Hlen & Hpre & Hpost).
+    destruct (IH (is_sl_comment (t_ty (fst q))) j p Hn) as (pre & post & Hrec & Hlen & Hpre & Hpost).
     exists (emit_ws rs mb q ++ t_content (fst q) ++ pre), post.
     split; [|split; [|split]].
     + cbn [recon]. rewrite Hrec. rewrite <- !app_assoc. reflexivity.
-    + rewrite !blen_app, Hlen, offset_for_token_cons, emit_ws_len_no_net by exact Hq. lia.
+    + rewrite !blen_app, Hlen, offset_from_cons, emit_ws_len. lia.
     + rewrite Hpre. cbn [firstn recon]. rewrite mb_after_cons, <- !app_assoc. reflexivity.
     + exact Hpost.
 Qed.
 
 (* offset_for_token rs toks i is the byte offset at which the content of token i starts in the
-   output of reconstruct, provided no safety-net newline is inserted before or at token i
-   (the excluded class F10: ws_len ignores the inserted newline). *)
+   output of reconstruct — unconditionally since commit 65fa795 (F10 repaired: the safety-net
+   line break is counted). *)
 Theorem offset_for_token_correct rs toks i p :
   nth_error toks i = Some p ->
-  net_free false (firstn (S i) toks) = true ->
   exists pre post,
     recon rs false toks = pre ++ t_content (fst p) ++ post /\
     blen pre = offset_for_token rs toks i /\
@@ -228,73 +255,54 @@ Theorem offset_for_token_correct rs toks i p :
     post = recon rs (is_sl_comment (t_ty (fst p))) (skipn (S i) toks).
 Proof. apply offset_for_token_correct_gen. Qed.
 
-(* without the proviso the offset is a lower bound, so a cursor inside token i still lies inside
-   the output *)
-Lemma offset_for_token_le rs toks : forall mb i p,
+Lemma offset_for_token_le rs toks i p :
   nth_error toks i = Some p ->
-  offset_for_token rs toks i + blen (t_content (fst p)) <= blen (recon rs mb toks).
+  offset_for_token rs toks i + blen (t_content (fst p)) <= blen (recon rs false toks).
+Proof.
+  intros Hn. destruct (offset_for_token_correct rs toks i p Hn) as (pre & post & Hrec & Hlen & _).
+  rewrite Hrec, !blen_app, Hlen. lia.
+Qed.
+
+(* the offset ends with the token's own (added line break and) whitespace *)
+Lemma offset_from_ge_ws rs toks : forall mb i p,
+  nth_error toks i = Some p ->
+  net_len rs (mb_after mb (firstn i toks)) p + ws_len rs p <= offset_from rs mb toks i.
 Proof.
   induction toks as [|q r IH]; intros mb i p Hn; [destruct i; discriminate|].
-  cbn [recon]. rewrite offset_for_token_cons, !blen_app.
-  pose proof (ws_len_le_emit rs mb q) as Hw.
-  destruct i as [|j]; cbn [nth_error] in Hn.
-  - injection Hn as <-. lia.
-  - specialize (IH (is_sl_comment (t_ty (fst q))) j p Hn). lia.
+  rewrite offset_from_cons. destruct i as [|j]; cbn [nth_error] in Hn.
+  - injection Hn as <-. cbn [firstn]. unfold mb_after. cbn [rev]. lia.
+  - cbn [firstn]. rewrite mb_after_cons. specialize (IH (is_sl_comment (t_ty (fst q))) j p Hn). lia.
 Qed.
 
-Lemma offset_ge_ws_len rs toks : forall i p,
+Lemma offset_ge_ws_len rs toks i p :
   nth_error toks i = Some p -> ws_len rs p <= offset_for_token rs toks i.
-Proof.
-  induction toks as [|q r IH]; intros i p Hn; [destruct i; discriminate|].
-  rewrite offset_for_token_cons. destruct i as [|j]; cbn [nth_error] in Hn.
-  - injection Hn as <-. lia.
-  - specialize (IH j p Hn). lia.
-Qed.
+Proof. intros Hn. pose proof (offset_from_ge_ws rs toks false i p Hn). unfold offset_for_token. lia. Qed.
 
-(* Σ (ws_len + content length): what offset_for_token returns for an index past the end *)
-Definition total_len (rs : rsettings) (toks : list ftoken) : N :=
-  nsum (map (fun p => ws_len rs p + blen (t_content (fst p))) toks).
-
-Lemma offset_for_token_past rs toks : forall i,
-  (length toks <= i)%nat -> offset_for_token rs toks i = total_len rs toks.
+(* for an index past the end the loop runs through: the length of the whole output *)
+Lemma offset_from_past rs toks : forall mb i,
+  (length toks <= i)%nat -> offset_from rs mb toks i = blen (recon rs mb toks).
 Proof.
-  induction toks as [|q r IH]; intros i Hi; [reflexivity|].
+  induction toks as [|q r IH]; intros mb i Hi; [reflexivity|].
   cbn [length] in Hi. destruct i as [|j]; [lia|].
-  rewrite offset_for_token_cons. unfold total_len. cbn [map nsum]. fold (total_len rs r).
-  rewrite IH by lia. lia.
+  rewrite offset_from_cons. cbn [recon]. rewrite !blen_app, emit_ws_len, IH by lia. lia.
 Qed.
 
-Lemma total_len_le_recon rs toks : forall mb, total_len rs toks <= blen (recon rs mb toks).
-Proof.
-  induction toks as [|q r IH]; intros mb; [cbn; lia|].
-  unfold total_len. cbn [map nsum recon]. fold (total_len rs r). rewrite !blen_app.
-  pose proof (ws_len_le_emit rs mb q). specialize (IH (is_sl_comment (t_ty (fst q)))). lia.
-Qed.
+Lemma offset_for_token_past rs toks i :
+  (length toks <= i)%nat -> offset_for_token rs toks i = blen (recon rs false toks).
+Proof. apply offset_from_past. Qed.
 
-Lemma total_len_recon rs toks : forall mb,
-  net_free mb toks = true -> total_len rs toks = blen (recon rs mb toks).
-Proof.
-  induction toks as [|q r IH]; intros mb Hf; [reflexivity|].
-  cbn [net_free] in Hf. apply andb_true_iff in Hf. destruct Hf as [Hq Hr]. apply negb_true_iff in Hq.
-  unfold total_len. cbn [map nsum recon]. fold (total_len rs r). rewrite !blen_app.
-  rewrite emit_ws_len_no_net by exact Hq. rewrite (IH _ Hr). lia.
-Qed.
-
-(* the lower bound is strict exactly when the net fires: F10 as a lemma.  A `//` comment followed
-   by a token on the same line with no line break recorded. *)
-Example offset_for_token_net_refuted :
+(* F10 regression: a `//` comment followed by a token with no line break recorded; the added
+   line break is now part of the offset *)
+Example offset_for_token_net_fixed_example :
   exists rs toks i p,
     nth_error toks i = Some p /\ net_free false (firstn (S i) toks) = false /\
-    exists pre post, recon rs false toks = pre ++ t_content (fst p) ++ post /\
-      post = recon rs (is_sl_comment (t_ty (fst p))) (skipn (S i) toks) /\
-      blen pre <> offset_for_token rs toks i.
+    recon rs false toks = [47;47;10;32;97] /\ offset_for_token rs toks i = 4.
 Proof.
   exists (mkRS [10] [32;32] [32;32]),
     [(mkToken [] [47;47] (TT_Comment CoK_IndividualLine), mkFmt false 0 0 0 0);
      (mkToken [] [97] TT_Identifier, mkFmt false 0 0 0 1)],
     1%nat, (mkToken [] [97] TT_Identifier, mkFmt false 0 0 0 1).
-  split; [reflexivity|]. split; [reflexivity|].
-  exists [47;47;10;32], []. split; [reflexivity|]. split; [reflexivity|]. vm_compute. discriminate.
+  repeat split; reflexivity.
 Qed.
 
 (* ------------------------------------------------------------------ *)
@@ -722,7 +730,7 @@ Theorem relocate_in_bounds rs toks idx pos p :
             (0 <= z <= Z.of_N (blen (recon rs false toks)))%Z.
 Proof.
   intros Hn. rewrite (relocate_in_range _ _ _ _ _ Hn). eexists; split; [reflexivity|].
-  pose proof (offset_for_token_le rs toks false idx p Hn) as Hle.
+  pose proof (offset_for_token_le rs toks idx p Hn) as Hle.
   destruct pos as [off|rc nla|col nla].
   - unfold relocate_at.
     destruct (floor_char_boundary_spec (t_content (fst p)) (N.to_nat (N.min off (blen (t_content (fst p))))))
@@ -798,12 +806,12 @@ Proof. cbv zeta. repeat split; reflexivity. Qed.
 (* ------------------------------------------------------------------ *)
 (* cursor beyond the last token *)
 
-(* tok_idx stays out of range, so offset_for_token adds EVERY content, including the last
-   token's, and then the Content{len} offset adds the last content a second time. *)
+(* tok_idx stays out of range, so offset_for_token runs through the whole list — its value is the
+   length of the output — and then the Content{len} offset adds the last content a second time. *)
 Theorem relocate_past_end rs toks idx pos p :
   (length toks <= idx)%nat -> last_opt toks = Some p ->
   relocate rs toks idx pos =
-  Some (Z.of_N (total_len rs toks)
+  Some (Z.of_N (blen (recon rs false toks))
         + Z.of_nat (floor_char_boundary (t_content (fst p))
                       (N.to_nat (u32 (blen (t_content (fst p)))))))%Z.
 Proof.
@@ -813,22 +821,19 @@ Proof.
 Qed.
 
 (* in practice the last token is Eof, whose content is empty: the cursor goes to the end of the
-   output (when no safety net fired; otherwise it falls short by the inserted newlines) *)
+   output — unconditionally since commit 65fa795 *)
 Corollary relocate_past_end_eof rs toks idx pos p :
   (length toks <= idx)%nat -> last_opt toks = Some p -> t_content (fst p) = [] ->
-  net_free false toks = true ->
   relocate rs toks idx pos = Some (Z.of_N (blen (recon rs false toks))).
 Proof.
-  intros Hi Hl Hc Hf. rewrite (relocate_past_end _ _ _ _ _ Hi Hl), Hc.
-  rewrite (total_len_recon _ _ _ Hf). cbn. f_equal. lia.
+  intros Hi Hl Hc. rewrite (relocate_past_end _ _ _ _ _ Hi Hl), Hc. cbn. f_equal. lia.
 Qed.
 
 Corollary relocate_past_end_in_bounds rs toks idx pos p :
   (length toks <= idx)%nat -> last_opt toks = Some p -> t_content (fst p) = [] ->
   exists z, relocate rs toks idx pos = Some z /\ (0 <= z <= Z.of_N (blen (recon rs false toks)))%Z.
 Proof.
-  intros Hi Hl Hc. rewrite (relocate_past_end _ _ _ _ _ Hi Hl), Hc. eexists; split; [reflexivity|].
-  pose proof (total_len_le_recon rs toks false). cbn. lia.
+  intros Hi Hl Hc. rewrite (relocate_past_end_eof _ _ _ _ _ Hi Hl Hc). eexists; split; [reflexivity|]. lia.
 Qed.
 
 Example relocate_past_end_ex :
@@ -836,7 +841,7 @@ Example relocate_past_end_ex :
   let p := (mkToken [] [] TT_Eof, mkFmt false 1 0 0 0) in
   let toks := [(mkToken [] [97] TT_Identifier, mkFmt false 0 0 0 0); p] in
   (length toks <= 2)%nat /\ last_opt toks = Some p /\ t_content (fst p) = [] /\
-  net_free false toks = true /\ relocate rs toks 2 (PWhitespace 3 4) = Some 2%Z.
+  relocate rs toks 2 (PWhitespace 3 4) = Some 2%Z.
 Proof. cbv zeta. repeat split; reflexivity. Qed.
 
 (* Latent quirk (not reachable through the formatter, where the last token is always Eof with
@@ -844,7 +849,7 @@ Proof. cbv zeta. repeat split; reflexivity. Qed.
    the end of the output, because that content is counted twice. *)
 Example relocate_past_end_nonempty_last_refuted :
   exists rs toks idx pos z,
-    (length toks <= idx)%nat /\ net_free false toks = true /\
+    (length toks <= idx)%nat /\
     relocate rs toks idx pos = Some z /\ (Z.of_N (blen (recon rs false toks)) < z)%Z.
 Proof.
   exists (mkRS [10] [32;32] [32;32]), [(mkToken [] [97] TT_Identifier, mkFmt false 0 0 0 0)],
@@ -1215,10 +1220,10 @@ Proof. reflexivity. Qed.
 (* a cursor beyond the end of the input goes to the end of the output *)
 Theorem track_cursor_past_end rs raw final c p :
   raw_len raw < c -> (length final <= length raw)%nat ->
-  last_opt final = Some p -> t_content (fst p) = [] -> net_free false final = true ->
+  last_opt final = Some p -> t_content (fst p) = [] ->
   track_cursor rs raw final c = Some (Z.of_N (blen (recon rs false final))).
 Proof.
-  intros Hc Hlen Hl Hcont Hf. unfold track_cursor. rewrite process_cursor_past_end by exact Hc.
+  intros Hc Hlen Hl Hcont. unfold track_cursor. rewrite process_cursor_past_end by exact Hc.
   apply (relocate_past_end_eof _ _ _ _ p); assumption.
 Qed.
 
@@ -1440,7 +1445,7 @@ Example track_cursor_past_end_ex :
   let p := (mkToken [10;10;10] [] TT_Eof, mkFmt false 1 0 0 0) in
   let final : list ftoken := [(mkToken [] [97] TT_Identifier, mkFmt false 0 0 0 0); p] in
   raw_len raw < 7 /\ (length final <= length raw)%nat /\ last_opt final = Some p /\
-  t_content (fst p) = [] /\ net_free false final = true /\
+  t_content (fst p) = [] /\
   track_cursor rs raw final 7 = Some 2%Z.
 Proof. cbv zeta. repeat split; reflexivity. Qed.
 
@@ -1485,7 +1490,7 @@ Example offset_for_token_correct_ex :
   let p := (mkToken [] [98] TT_Identifier, mkFmt false 1 1 0 0) in
   let toks := [(mkToken [] [47;47] (TT_Comment CoK_IndividualLine), mkFmt false 0 0 0 0); p;
                (mkToken [] [] TT_Eof, mkFmt false 1 0 0 0)] in
-  nth_error toks 1 = Some p /\ net_free false (firstn 2 toks) = true /\
+  nth_error toks 1 = Some p /\
   offset_for_token rs toks 1 = 6 /\ recon rs false toks = [47;47;13;10;32;32;98;13;10].
 Proof. cbv zeta. repeat split; reflexivity. Qed.
 
@@ -1647,11 +1652,14 @@ Qed.
 Lemma no_cont_after_lf_ok l : no_cont l -> after_lf_ok l.
 Proof. intros H i b _ Hb. exact (no_cont_nth _ _ _ H Hb). Qed.
 
-Lemma emit_ws_ignored_no_net rs mb p :
-  f_ignored (snd p) = true -> net_fires mb p = false -> emit_ws rs mb p = t_ws (fst p).
+Lemma ws_part_ignored rs p : f_ignored (snd p) = true -> ws_part rs p = t_ws (fst p).
+Proof. destruct p as [tok f]. cbn [snd fst]. intros Hi. unfold ws_part. rewrite Hi. reflexivity. Qed.
+
+Lemma no_cont_ws_part rs p : rs_no_cont rs -> f_ignored (snd p) = false -> no_cont (ws_part rs p).
 Proof.
-  destruct p as [tok f]. cbn [snd fst]. intros Hi Hnf. unfold emit_ws, net_fires in *.
-  rewrite Hi in *. rewrite Hnf. reflexivity.
+  intros (H1 & H2 & H3) Hi. destruct p as [tok f]. cbn [snd] in Hi. unfold ws_part. rewrite Hi.
+  assert (H32 : no_cont [32]) by (repeat constructor).
+  unfold nrepeat. repeat apply no_cont_app; apply no_cont_repeat_app; assumption.
 Qed.
 
 (* where a whitespace cursor in front of an IGNORED token lands: at offset i of the token's
@@ -1688,15 +1696,15 @@ Proof.
 Qed.
 
 (* NEW: a relocated cursor is a character boundary of the output.
-   Content / MultilineContent positions: always (given that no piece of the output starts with a
-   continuation byte, i.e. all pieces are valid UTF-8, and that no safety-net newline shifts the
-   offsets — class F10).
+   Content / MultilineContent positions: always, given that no piece of the output starts with a
+   continuation byte (all pieces are valid UTF-8).
    Whitespace positions: for formatted tokens when the settings' strings are ASCII; for ignored
    tokens (verbatim whitespace, possibly with U+3000) when no continuation byte directly follows
-   an LF in that whitespace (after_lf_ok — implied by valid UTF-8) — since commit c3b0c3f. *)
+   an LF in that whitespace (after_lf_ok — implied by valid UTF-8).
+   No "no safety net" proviso since commit 65fa795: a whitespace cursor in front of a token that
+   receives the added line break lands after that line break. *)
 Theorem relocate_on_char_boundary rs toks idx pos p z :
   nth_error toks idx = Some p ->
-  net_free false (firstn (S idx) toks) = true ->
   pieces_ok rs toks ->
   match pos with
   | PWhitespace _ _ => rs_no_cont rs /\ (f_ignored (snd p) = true -> after_lf_ok (t_ws (fst p)))
@@ -1705,8 +1713,8 @@ Theorem relocate_on_char_boundary rs toks idx pos p z :
   relocate rs toks idx pos = Some z ->
   is_char_boundary (recon rs false toks) (Z.to_nat z) = true.
 Proof.
-  intros Hn Hf [Hrs Hall] Hpos Hz.
-  destruct (offset_for_token_correct rs toks idx p Hn Hf) as (pre & post & Hrec & Hlen & Hpre & Hpost).
+  intros Hn [Hrs Hall] Hpos Hz.
+  destruct (offset_for_token_correct rs toks idx p Hn) as (pre & post & Hrec & Hlen & Hpre & Hpost).
   assert (Hp : tok_starts_ok p).
   { rewrite Forall_forall in Hall. apply Hall. exact (nth_error_In _ _ Hn). }
   destruct Hp as [Hpw Hpc].
@@ -1724,29 +1732,30 @@ Proof.
     [apply boundary_at_app_end, Hpost_ok|];
     apply boundary_at_app_in; [lia|]; intros b Hb';
     destruct k as [|k']; [apply Hpc, Hb'|apply (is_char_boundary_byte (t_content (fst p)) (S k') b); [lia|exact Hb|exact Hb']]).
-  (* whitespace *)
+  (* whitespace: the output is pre0 ++ (added line break) ++ W ++ content ++ post, |W| = ws_len,
+     and the cursor lands inside W *)
   destruct Hpos as [Hrsn Hign].
-  pose proof (net_free_at toks false idx p Hn Hf) as Hnf.
-  set (E := emit_ws rs (mb_after false (firstn idx toks)) p) in *.
-  assert (HElen : blen E = ws_len rs p) by (apply emit_ws_len_no_net; exact Hnf).
-  rewrite Hpre, <- app_assoc.
-  pose proof (offset_ge_ws_len rs toks idx p Hn) as Hge.
+  rewrite emit_ws_split in Hpre.
+  set (NP := net_part rs (mb_after false (firstn idx toks)) p) in *.
+  set (W := ws_part rs p) in *.
+  assert (HWlen : blen W = ws_len rs p) by apply ws_part_len.
   set (pre0 := recon rs false (firstn idx toks)) in *.
-  assert (Hpre0 : blen pre0 + blen E = offset_for_token rs toks idx)
-    by (rewrite <- Hlen, Hpre, blen_app; reflexivity).
+  assert (Hpre' : pre = (pre0 ++ NP) ++ W) by (rewrite Hpre, <- app_assoc; reflexivity).
+  rewrite Hpre', <- app_assoc.
+  assert (Hsum : blen (pre0 ++ NP) + blen W = offset_for_token rs toks idx)
+    by (rewrite <- Hlen, Hpre'; symmetry; apply blen_app).
   rewrite (relocate_in_range _ _ _ _ _ Hn) in Hz.
   assert (Hzeq : relocate_at rs toks idx p (PWhitespace col nla) = z) by congruence.
   clear Hz. subst z.
   destruct (f_ignored (snd p)) eqn:Hi.
   - (* verbatim whitespace *)
     destruct (whitespace_ignored_landing rs toks idx p col nla Hi (Hign eq_refl)) as (i & Hrel & Hile & Hbyte).
-    assert (HE : E = t_ws (fst p)) by (apply emit_ws_ignored_no_net; assumption).
-    assert (Hws : ws_len rs p = blen (t_ws (fst p))).
-    { destruct p as [tok f]. cbn [snd fst] in *. unfold ws_len. rewrite Hi. reflexivity. }
+    assert (HW : W = t_ws (fst p)) by (apply ws_part_ignored; exact Hi).
+    assert (Hws : ws_len rs p = blen (t_ws (fst p))) by (rewrite <- HWlen, HW; reflexivity).
     rewrite Hrel.
     replace (Z.to_nat (Z.of_N (offset_for_token rs toks idx) - Z.of_N (blen (t_ws (fst p))) + Z.of_nat i))
-      with (length pre0 + i)%nat by (unfold blen in *; lia).
-    apply boundary_at_skip. rewrite HE.
+      with (length (pre0 ++ NP) + i)%nat by (unfold blen in *; lia).
+    apply boundary_at_skip. rewrite HW.
     destruct (Nat.eq_dec i (length (t_ws (fst p)))) as [->|Hne].
     + apply boundary_at_app_end. apply starts_ok_app; assumption.
     + apply boundary_at_app_in; [lia|]. intros b Hb. destruct i as [|i']; [apply Hpw, Hb|].
@@ -1757,26 +1766,25 @@ Proof.
     assert (Hzeq : relocate_at rs toks idx p (PWhitespace col nla) = z') by congruence.
     clear Hz'. subst z'.
     set (z := relocate_at rs toks idx p (PWhitespace col nla)) in *.
-    assert (HE : no_cont E).
-    { apply no_cont_emit_ws; [exact Hrsn|]. intros H. rewrite H in Hi. discriminate. }
-    replace (Z.to_nat z) with (length pre0 + Z.to_nat (z - Z.of_N (blen pre0)))%nat by (unfold blen in *; lia).
+    assert (HE : no_cont W) by (apply no_cont_ws_part; assumption).
+    replace (Z.to_nat z) with (length (pre0 ++ NP) + Z.to_nat (z - Z.of_N (blen (pre0 ++ NP))))%nat
+      by (unfold blen in *; lia).
     apply boundary_at_skip.
-    set (j := Z.to_nat (z - Z.of_N (blen pre0))).
-    assert (Hj : (j <= length E)%nat) by (unfold j, blen in *; lia).
-    destruct (Nat.eq_dec j (length E)) as [->|Hne].
+    set (j := Z.to_nat (z - Z.of_N (blen (pre0 ++ NP)))).
+    assert (Hj : (j <= length W)%nat) by (unfold j, blen in *; lia).
+    destruct (Nat.eq_dec j (length W)) as [->|Hne].
     + apply boundary_at_app_end. apply starts_ok_app; assumption.
     + apply boundary_at_app_in; [lia|]. intros b Hb. exact (no_cont_nth _ _ _ HE Hb).
 Qed.
 
 Theorem relocate_on_char_boundary_content rs toks idx pos p z :
   nth_error toks idx = Some p ->
-  net_free false (firstn (S idx) toks) = true ->
   pieces_ok rs toks ->
   match pos with PWhitespace _ _ => False | _ => True end ->
   relocate rs toks idx pos = Some z ->
   is_char_boundary (recon rs false toks) (Z.to_nat z) = true.
 Proof.
-  intros Hn Hf Hp Hpos Hz. apply (relocate_on_char_boundary rs toks idx pos p z Hn Hf Hp); [|exact Hz].
+  intros Hn Hp Hpos Hz. apply (relocate_on_char_boundary rs toks idx pos p z Hn Hp); [|exact Hz].
   destruct pos; [exact I|exact I|contradiction].
 Qed.
 
@@ -1784,20 +1792,19 @@ Qed.
 Theorem track_cursor_on_char_boundary rs raw final c z :
   final <> [] ->
   (forall p, last_opt final = Some p -> t_content (fst p) = []) ->
-  net_free false final = true ->
   pieces_ok rs final -> rs_no_cont rs ->
   Forall (fun p => f_ignored (snd p) = true -> after_lf_ok (t_ws (fst p))) final ->
   track_cursor rs raw final c = Some z ->
   is_char_boundary (recon rs false final) (Z.to_nat z) = true.
 Proof.
-  intros Hne Hlast Hf Hp Hrs Hws. unfold track_cursor.
+  intros Hne Hlast Hp Hrs Hws. unfold track_cursor.
   destruct (process_cursor raw c) as [idx pos]. intros Hz.
   destruct (nth_error final idx) as [p|] eqn:En.
-  - apply (relocate_on_char_boundary rs final idx pos p z En (net_free_firstn _ _ _ Hf) Hp); [|exact Hz].
+  - apply (relocate_on_char_boundary rs final idx pos p z En Hp); [|exact Hz].
     destruct pos; try exact I. split; [exact Hrs|].
     rewrite Forall_forall in Hws. apply Hws. exact (nth_error_In _ _ En).
   - apply nth_error_None in En. destruct (last_opt final) as [p|] eqn:El.
-    + rewrite (relocate_past_end_eof rs final idx pos p En El (Hlast p eq_refl) Hf) in Hz.
+    + rewrite (relocate_past_end_eof rs final idx pos p En El (Hlast p eq_refl)) in Hz.
       injection Hz as <-. unfold blen.
       replace (Z.to_nat (Z.of_N (N.of_nat (length (recon rs false final))))) with (length (recon rs false final)) by lia.
       apply is_char_boundary_len.
@@ -1806,15 +1813,15 @@ Qed.
 
 (* the same for Content / MultilineContent cursors only, with no assumption on the whitespace *)
 Theorem track_cursor_on_char_boundary_content rs raw final c idx pos z :
-  net_free false final = true -> pieces_ok rs final ->
+  pieces_ok rs final ->
   process_cursor raw c = (idx, pos) -> (idx < length final)%nat ->
   match pos with PWhitespace _ _ => False | _ => True end ->
   track_cursor rs raw final c = Some z ->
   is_char_boundary (recon rs false final) (Z.to_nat z) = true.
 Proof.
-  intros Hf Hp Hpc Hidx Hpos. unfold track_cursor. rewrite Hpc. intros Hz.
+  intros Hp Hpc Hidx Hpos. unfold track_cursor. rewrite Hpc. intros Hz.
   destruct (nth_error final idx) as [p|] eqn:En; [|apply nth_error_None in En; lia].
-  exact (relocate_on_char_boundary_content rs final idx pos p z En (net_free_firstn _ _ _ Hf) Hp Hpos Hz).
+  exact (relocate_on_char_boundary_content rs final idx pos p z En Hp Hpos Hz).
 Qed.
 
 (* F9 regression: `a; //é` with --cursor 7 (the end of the comment).  The comment becomes `// é`
@@ -1836,7 +1843,7 @@ Example cursor_mid_char_fixed_example :
   is_char_boundary (recon f9_rs false f9_final) 6 = true /\
   is_char_boundary (recon f9_rs false f9_final) 7 = false /\      (* where it used to land *)
   (* the hypotheses of track_cursor_on_char_boundary hold for this instance *)
-  net_free false f9_final = true /\ pieces_ok f9_rs f9_final /\ rs_no_cont f9_rs /\
+  pieces_ok f9_rs f9_final /\ rs_no_cont f9_rs /\
   map (track_cursor_u32 f9_rs f9_raw f9_final) [0;1;2;3;4;5;6;7;8] = [0;1;2;3;4;5;6;6;9].
 Proof.
   repeat split; try reflexivity; try apply rs_of_config_no_cont.
@@ -1869,7 +1876,7 @@ Theorem whitespace_verbatim_mid_char_fixed_example :
   exists rs raw final c idx col nla z,
     input_boundary (raw_text raw) c /\                 (* the cursor is on a character boundary *)
     process_cursor raw c = (idx, PWhitespace col nla) /\
-    net_free false final = true /\ pieces_ok rs final /\ rs_no_cont rs /\
+    pieces_ok rs final /\ rs_no_cont rs /\
     Forall (fun p => f_ignored (snd p) = true -> after_lf_ok (t_ws (fst p))) final /\
     track_cursor rs raw final c = Some z /\ z = 5%Z /\
     is_char_boundary (recon rs false final) (Z.to_nat z) = true /\
@@ -1884,6 +1891,56 @@ Proof.
   - repeat constructor; intros _ i b H10 Hb; cbn [fst t_ws] in *;
       repeat (destruct i as [|i]; cbn [nth_error] in *; try discriminate).
 Qed.
+
+(* F10 regression (repaired by commit 65fa795).  Input `a; // c` CR `// y` LF `b;`, default
+   settings, line_ending=lf.  The first comment ends at a lone CR; the second comment has no line
+   break recorded (newlines_before = 0), so reconstruct adds one: output `a; // c` LF ` // y` LF
+   `b;` LF.  offset_for_token now counts the added byte: cursors 3,8,9,14,15,16,100 map to
+   3,9,10,15,16,17,17 (before: 8 -> 8 and 100 -> 16).  Confirmed with vh trace on a harness built
+   from 65fa795. *)
+Definition f10_rs : rsettings := rs_of_config false false 2 2.
+Definition f10_raw : list rtok :=
+  [([], [97], RTT_Identifier); ([], [59], RTT_Op OK_Semicolon);
+   ([32], [47;47;32;99], RTT_Comment CoK_InlineLine); ([13], [47;47;32;121], RTT_Comment CoK_InlineLine);
+   ([10], [98], RTT_Identifier); ([], [59], RTT_Op OK_Semicolon); ([], [], RTT_Eof)].
+Definition f10_final : list ftoken :=
+  [(mkToken [] [97] TT_Identifier, mkFmt false 0 0 0 0);
+   (mkToken [] [59] (TT_Op OK_Semicolon), mkFmt false 0 0 0 0);
+   (mkToken [32] [47;47;32;99] (TT_Comment CoK_InlineLine), mkFmt false 0 0 0 1);
+   (mkToken [13] [47;47;32;121] (TT_Comment CoK_InlineLine), mkFmt false 0 0 0 1);
+   (mkToken [10] [98] TT_Identifier, mkFmt false 1 0 0 0);
+   (mkToken [] [59] (TT_Op OK_Semicolon), mkFmt false 0 0 0 0);
+   (mkToken [] [] TT_Eof, mkFmt false 1 0 0 0)].
+
+Example cursor_safety_net_fixed_example :
+  recon f10_rs false f10_final = [97;59;32;47;47;32;99;10;32;47;47;32;121;10;98;59;10] /\
+  net_free false f10_final = false /\                       (* the safety net does fire *)
+  map (track_cursor_u32 f10_rs f10_raw f10_final) [3;8;9;14;15;16;100] = [3;9;10;15;16;17;17] /\
+  offset_for_token f10_rs f10_final 3 = 9 /\
+  track_cursor f10_rs f10_raw f10_final 100 = Some (Z.of_N (blen (recon f10_rs false f10_final))).
+Proof. repeat split; reflexivity. Qed.
+
+(* A cursor in the blanks in front of a token that receives the added line break (`a; // c` CR
+   `   // y`, cursors 8..10; vh trace: 7..12 -> 7,9,9,9,9,10) lands after that line break, at the
+   token start: in bounds, on a boundary.
+   The column arithmetic (col_for_token_end_post_fmt, break_found = false) treats the token as
+   if it were still on the comment's line — consistently with the input, where a lone CR is not
+   a line break for rfind('\n') either — and the clamp keeps the result inside the token's own
+   whitespace. *)
+Example whitespace_before_safety_net_example :
+  let raw : list rtok :=
+    [([], [97], RTT_Identifier); ([], [59], RTT_Op OK_Semicolon);
+     ([32], [47;47;32;99], RTT_Comment CoK_InlineLine);
+     ([13;32;32;32], [47;47;32;121], RTT_Comment CoK_InlineLine); ([], [], RTT_Eof)] in
+  let final : list ftoken :=
+    [(mkToken [] [97] TT_Identifier, mkFmt false 0 0 0 0);
+     (mkToken [] [59] (TT_Op OK_Semicolon), mkFmt false 0 0 0 0);
+     (mkToken [32] [47;47;32;99] (TT_Comment CoK_InlineLine), mkFmt false 0 0 0 1);
+     (mkToken [13;32;32;32] [47;47;32;121] (TT_Comment CoK_InlineLine), mkFmt false 0 0 0 1);
+     (mkToken [] [] TT_Eof, mkFmt false 1 0 0 0)] in
+  recon f10_rs false final = [97;59;32;47;47;32;99;10;32;47;47;32;121;10] /\
+  map (track_cursor_u32 f10_rs raw final) [7;8;9;10;11;12] = [7;9;9;9;9;10].
+Proof. split; reflexivity. Qed.
 
 Print Assumptions offset_for_token_correct.
 Print Assumptions relocate_in_bounds.
@@ -1911,3 +1968,5 @@ Print Assumptions track_cursor_on_char_boundary_content.
 Print Assumptions cursor_mid_char_fixed_example.
 Print Assumptions whitespace_verbatim_mid_char_fixed_example.
 Print Assumptions whitespace_ignored_landing.
+Print Assumptions emit_ws_split.
+Print Assumptions cursor_safety_net_fixed_example.
